@@ -17,11 +17,35 @@ def two_choice_graph():
     return g
 
 
+def three_choice_graph():
+    """Three two-option choices on permanent nodes: a permutation / non-replacing constraint over them is unsatisfiable
+    and resolves option-less choices on the constrained copy."""
+    g = empty(10)
+    g['der'] = [[1, 2], [1, 3], [1, 4]]
+    g['ch'] = [{'origin': 2, 'opts': [5, 6]}, {'origin': 3, 'opts': [7, 8]}, {'origin': 4, 'opts': [9, 10]}]
+    g['feat'] = ['persist_three_choices']
+    return g
+
+
+def conn_next_to_selection_graph():
+    """A connection choice with permanent connectors next to an open selection choice (both are next choices)."""
+    g = empty(7)
+    g['der'] = [[1, 4], [1, 5], [1, 6], [1, 7]]
+    g['ch'] = [{'origin': 1, 'opts': [2, 3]}]
+    g['nodes'][3] = node('conn', dl=[1])
+    g['nodes'][4] = node('conn', dl=[0, 1])
+    g['nodes'][5] = node('conn', dmin=0, dmax=-1)
+    g['nodes'][6] = node('conn', dmin=0, dmax=-1)
+    g['cc'] = [{'src': [4, 5], 'tgt': [6, 7], 'excl': []}]
+    g['feat'] = ['persist_conn_next_to_selection']
+    return g
+
+
 def corpus(ctx):
     rng = ctx.rng('persist')
-    gs = [gen_cc.theory_conn_example(), two_choice_graph()]
+    gs = [gen_cc.theory_conn_example(), two_choice_graph(), three_choice_graph(), conn_next_to_selection_graph()]
     n = 4 if ctx.quick else 30
-    while len(gs) < 2 + n:
+    while len(gs) < 4 + n:
         r = rng.random()
         if r < 0.5:
             g = gen_cc.random_cc_graph(rng, nmin=3, nmax=6, max_s=2, max_t=2, p_group=0.7)
